@@ -2,3 +2,7 @@ import VerifModel.Base.XR
 import VerifModel.Base.Tr
 import VerifModel.Model.Interval
 import VerifModel.Spec.Events
+import VerifModel.Base.Arr
+import VerifModel.Model.Aggregator
+import VerifModel.Model.Preagg
+import VerifModel.Spec.Stats
